@@ -253,6 +253,18 @@ pub fn run(ctx: &mut Ctx) {
             let rd = render(&d, &sp);
             judge_one(ctx, &rd, &sp, &cfg, STEP, "seam-wide");
         }
+        // ---- equal-shape documents back to back (every ordered pair): state kept between calls
+        if shard < 4 {
+            let docs = equal_shape_docs();
+            let sp = short_sp();
+            let rds: Vec<Rendered> = docs.iter().map(|d| render(d, &sp)).collect();
+            for i in (shard as usize..rds.len()).step_by(4) {
+                for j in 0..rds.len() {
+                    judge_one(ctx, &rds[i], &sp, &cfg, STEP, "equal-shape-pairs");
+                    judge_one(ctx, &rds[j], &sp, &cfg, STEP, "equal-shape-pairs");
+                }
+            }
+        }
         // ---- big block documents without unwrap-blocks
         let total = 40 * scale;
         for i in (shard..total).step_by(n as usize) {
